@@ -162,6 +162,75 @@ func steer(cf cfg, key exchange.PrivateKey, cr, sr *xkit.RecRand) string {
 	return "unknown steer " + cf.Steer
 }
 
+var wireRuns int
+
+// emitWire: the plaintext messages of one real run as correspondence cases (fields decoded by gotd's
+// own mt package + the real TL body): the Coq side must produce / parse exactly these bytes with the
+// generated mt schema (Run/Check_C09.v, CWire).
+func emitWire(c *hx.Ctx, l *xkit.Link) {
+	bl := func(bs ...[]byte) string {
+		s := make([]string, len(bs))
+		for i, b := range bs {
+			s[i] = hx.Bytes(b)
+		}
+		return hx.List(s)
+	}
+	for _, e := range l.Events() {
+		if e.Dir != "c2s" && e.Dir != "s2c" {
+			continue
+		}
+		_, body, err := xkit.Body(e.Data)
+		if err != nil {
+			continue
+		}
+		b := &bin.Buffer{Buf: append([]byte(nil), body...)}
+		kind, fields, zs := 0, "", "[]"
+		switch {
+		case e.Dir == "c2s" && e.I == 1:
+			var m mt.ReqPqMultiRequest
+			if m.Decode(b) == nil {
+				kind, fields = 1, bl(m.Nonce[:])
+			}
+		case e.Dir == "s2c" && e.I == 1:
+			var m mt.ResPQ
+			if m.Decode(b) == nil {
+				var f []string
+				for _, x := range m.ServerPublicKeyFingerprints {
+					f = append(f, hx.Z(x))
+				}
+				kind, fields, zs = 2, bl(m.Nonce[:], m.ServerNonce[:], m.Pq), hx.List(f)
+			}
+		case e.Dir == "c2s" && e.I == 2:
+			var m mt.ReqDHParamsRequest
+			if m.Decode(b) == nil {
+				kind, fields, zs = 3, bl(m.Nonce[:], m.ServerNonce[:], m.P, m.Q, m.EncryptedData), hx.List([]string{hx.Z(m.PublicKeyFingerprint)})
+			}
+		case e.Dir == "s2c" && e.I == 2:
+			var m mt.ServerDHParamsOk
+			if m.Decode(b) == nil {
+				kind, fields = 4, bl(m.Nonce[:], m.ServerNonce[:], m.EncryptedAnswer)
+			}
+		case e.Dir == "c2s" && e.I == 3:
+			var m mt.SetClientDHParamsRequest
+			if m.Decode(b) == nil {
+				kind, fields = 5, bl(m.Nonce[:], m.ServerNonce[:], m.EncryptedData)
+			}
+		case e.Dir == "s2c" && e.I == 3:
+			var m mt.DhGenOk
+			if m.Decode(b) == nil {
+				kind, fields = 6, bl(m.Nonce[:], m.ServerNonce[:], m.NewNonceHash1[:])
+			}
+		}
+		if kind == 0 {
+			c.Count("wire:undecodable")
+			continue
+		}
+		c.Obs.Evaluations++
+		c.Count(fmt.Sprintf("wire:kind=%d", kind))
+		c.Case(fmt.Sprintf("CWire %d %s %s %s", kind, fields, zs, hx.Bytes(body)), map[string]interface{}{"wire_kind": kind, "dir": e.Dir, "i": e.I, "body_len": len(body)})
+	}
+}
+
 var primeMemo = map[string]bool{}
 
 func isPrime(p *big.Int) bool {
@@ -333,7 +402,7 @@ func main() {
 		}
 		js := map[string]interface{}{"config": cf, "client_err": fmt.Sprint(cerr), "server_err": fmt.Sprint(s.err), "a_candidates": len(a256),
 			"client_key_id": fmt.Sprintf("%x", cres.AuthKey.ID), "server_key_id": fmt.Sprintf("%x", s.r.Key.ID), "client_salt": cres.ServerSalt, "server_salt": s.r.ServerSalt}
-		sh, ix := c.Case(hx.Tuple(
+		sh, ix := c.Case("CRun "+hx.Tuple(
 			hx.Tuple(hx.Z(int64(cf.DC)), hx.Z(int64(cf.DC)), hx.Z(int64(cf.Expires))),
 			hx.Tuple(hx.Bytes(nonce), hx.Bytes(newNonce), hx.Bytes(serverNonce)),
 			hx.Tuple(xkit.BigBytes(pq), xkit.BigBytes(fp), xkit.BigBytes(fq)),
@@ -345,6 +414,10 @@ func main() {
 			obs(s.err == nil, s.r.Key, s.r.ServerSalt, 1)), js)
 		c.Nontrivial(fmt.Sprintf("%x", newNonce))
 		c.Sample(js)
+		if wireRuns < 2 && cerr == nil && s.err == nil {
+			wireRuns++
+			emitWire(c, l)
+		}
 		// ---- oracle ----
 		bad := func(sig, desc string) {
 			c.Violate(sig, fmt.Sprintf("dc=%d expires=%d seed=%d: %s", cf.DC, cf.Expires, cf.Seed, desc), sh, ix, cf)
